@@ -471,7 +471,7 @@ func init() {
 		ID:        "C07",
 		Level:     "exploration",
 		NeedsTerm: true,
-		Rule: "EXHAUSTIVE over all sequences of length <= 4 (quick) / <= 5 (thorough) over the 11-operation alphabet {insert word, insert char, backward-delete-char, kill-word, kill-line, yank, transpose-chars, beginning-of-line, backward-word, undo, redo} in Emacs mode, plus random sequences of 3-40 operations over 16 operations in Emacs and Vi (with history walks in a quarter of them); after each script: n undos then n redos (n = 1..5, R1), then a tail of 2*len+2 undos (U2). Monitors over the per-step buffer snapshots: U1 every buffer produced by undo was shown earlier in this call (or is a history entry in walking sessions); U2 the tail ends at the line's initial content; R1 n undos + n redos restore the text; R2 redo after a new buffer-changing edit following an undo leaves the buffer unchanged. " +
+		Rule: "EXHAUSTIVE over all sequences of length <= 4 (quick) / <= 5 (thorough) over the 11-operation alphabet {insert word, insert char, backward-delete-char, kill-word, kill-line, yank, transpose-chars, beginning-of-line, backward-word, undo, redo} in Emacs mode, plus random sequences of 3-40 operations over 16 operations in Emacs and Vi (with history walks in a quarter of them); after each script: n undos then n redos (n = 1..5, R1), then a tail of 2*len+2 undos (U2). Monitors over the per-step buffer snapshots: U1 every buffer produced by undo was shown earlier in this call (or is a history entry in walking sessions); U2 the tail ends at the line's initial content; R1 n undos + n redos restore the text; R2 redo after a new buffer-changing edit following an undo leaves the buffer unchanged. Half of the random cases type multi-byte / double-width text; one in eight runs with every history source removed; in walking Emacs sessions whose last history move arrives on an entry visited for the first time the tail of undos must end on the stored entry. " +
 			"distinct non-trivial = distinct (mode, operation sequence) with >= 1 buffer-changing edit and >= 1 undo",
 		Assumptions: []string{"redo is bound to C-x C-r in Emacs mode for the test (it has no default Emacs binding); Vi uses u / C-r"},
 		N: func(tier string) int {
